@@ -174,7 +174,7 @@ TInit == /\ obj = <<>> /\ held = {} /\ reg = {} /\ hist = <<>> /\ blobs = <<>>
         /\ l = 1 /\ bk = <<>> /\ skip = FALSE
         /\ TLCSet(1, {})
 
-Reject(why) == TLCSet(1, TLCGet(1) \cup {l}) /\ PrintT(<<"REJECT", l, Lines[l].tid, Lines[l].seq, why>>)
+Reject(why) == TLCSet(1, TLCGet(1) \cup {l}) /\ PrintT(ToJson([rej |-> l, info |-> <<Lines[l].tid, Lines[l].seq, why>>]))
 
 TNext ==
     /\ l <= Len(Lines)
@@ -202,7 +202,7 @@ TNext ==
                /\ obj' = o2 /\ held' = a.held /\ reg' = r2 /\ bk' = kb.m
                /\ ret' = [op |-> e.op, res |-> NoSlot, src |-> NoSlot]
 
-Done == TLCGet(1) = {} /\ TLCGet("stats").diameter - 1 = Len(Lines)
+Done == PrintT(ToJson([rejected_total |-> Cardinality(TLCGet(1))])) /\ TLCGet(1) = {} /\ TLCGet("stats").diameter - 1 = Len(Lines)
 
 (* the C03 invariants evaluated on every state of the validated behaviour *)
 TraceRegExact == RegExact
